@@ -75,6 +75,13 @@ CLAIMED = {
          "negation witness length_setter_stale for the repaired defect F1. The model is compared with real Domains after every setter of random histories, its direct DST sums with "
          "scipy.fftpack.dst and with to_fourier/to_real; freshness, grid shape, round trips, linearity and the MatrixArray clauses are evaluated on the implementation.",
          "4 C07", "Lean 4 proof (trigonometric orthogonality, induction over setter histories) + differential correspondence"),
+ 'C08': ("Lean theorems, for every length N >= 1 and every reachable Domain: toFourier_riemann and toReal_riemann (the transforms ARE the half-cell-offset Riemann sums of F(k) = (4 pi/k) Int f r sin(kr) dr and "
+         "f(r) = (1/(2 pi^2 r)) Int F k sin(kr) dk, last k-term half weight: pins the two prefactors individually and the conjugate spacing dk = pi/(dr N)), toFourier_error_bound (for r f(r) continuous, bounded "
+         "by M0 and M1-Lipschitz: |to_fourier(f)(k_j) - (4 pi/k_j) Int_0^rmax f r sin(k_j r) dr| <= (4 pi/k_j) rmax (M1 + M0 k_j/2) dr; via interval integrals, riemann_cell_bound, sine_quadrature_first_order), "
+         "k_to_zero (Filter.Tendsto to the Riemann sum of the volume integral). PARTIAL: the analogous O(dr) bound for to_real and the closed-form transforms of the reference families are not proved (textbook "
+         "references, used numerically). The Riemann-sum identities are evaluated on the implementation independently of scipy's DST for random arrays/domains/setter histories; the analytic families are run "
+         "on refinement families dr, dr/2, dr/4 (incl. non-5-smooth lengths) with a first-order criterion forward, backward and at k -> 0.",
+         "4 C08", "Lean 4 proof (Riemann-sum identities, interval-integral error bound, limit) + differential/analytic validation; partial (backward bound)"),
  'C09': ("Lean theorems about the closure model: py/hnc/msa/msA/msB_eq_published, core_branch (all closures, every r <= sigma), py/hnc/msa_linearises "
          "(|c+u| <= 2(gamma^2+u^2) on |gamma|,|u| <= 1/2), elementwise, and for the shipped Martynov-Sarkisov expression ms_shipped_formula plus the negation witness "
          "ms_shipped_not_zero_at_zero (known finding F6, pinned by a baseline test); the model is compared with all 8 classes/aliases on the real grid with bit-exact masks; "
